@@ -7,7 +7,7 @@ oracle_c16 — line protocol (one world per script; the first line (re)initialis
   `conn`                              → `r=acc<k>` | `r=rej`, then the world
   `send <k> <hex|->`                  → `r=ok` | `r=closed`, then the world
   `close|pclose|drain|hold|pdata|rerr|rto|herr|rdl|hpanic|hpanicnil|werr|wto|wdl|start <k>` → `r=ok`, then the world
-World: ` n=<ConnCount> rej=<closed on accept> | <k>:x<OnExit calls>,c<conn.Close calls>,l<live loops>,d=<hex read by peer>,rd=<handler reads>`
+World: ` n=<ConnCount> rej=<closed on accept> / <k>:x<OnExit calls>,c<conn.Close calls>,l<live loops>,d=<hex read by peer>,rd=<handler reads>`
 After every line all sessions run to quiescence. Mode `rt`: every read deadline expires before the next
 observation; mode `wt`: every blocked write times out before the next observation.
 The configuration is the one regenerated from the source (`Nv.Gen.C16.cfg`).
@@ -55,7 +55,7 @@ def showSessions : Nat → List Sess → List String
   | k, s :: rest => showSess k s :: showSessions (k + 1) rest
 
 def showWorld (w : World) : String :=
-  s!" n={w.count} rej={w.rejected}" ++ String.join ((showSessions 0 w.sess).map (" | " ++ ·))
+  s!" n={w.count} rej={w.rejected}" ++ String.join ((showSessions 0 w.sess).map (" / " ++ ·))
 
 /-- what real time does between two observations in the timeout modes -/
 def timePasses (m : Mode) (s : Sess) : Sess :=
@@ -68,7 +68,11 @@ def timePasses (m : Mode) (s : Sess) : Sess :=
 
 def finishLine (st : OState) (w : World) (r : String) : OState × String :=
   let w' := { w with sess := w.sess.map (fun s => timePasses st.mode (settle cfg s)) }
-  ({ st with w := w' }, s!"r={r}" ++ showWorld w')
+  -- the other extreme schedule (receive loop first): if it ends elsewhere the line is a set of outcomes
+  let w2 := { w with sess := w.sess.map (fun s => timePasses st.mode (settleR cfg s)) }
+  let a := s!"r={r}" ++ showWorld w'
+  let b := s!"r={r}" ++ showWorld w2
+  ({ st with w := w' }, if a == b then a else "{" ++ a ++ "|" ++ b ++ "}")
 
 def onSess (st : OState) (k : String) (f : Sess → Sess × String) : OState × String :=
   match k.toNat? with
